@@ -43,7 +43,8 @@ fn tables_profile(tier: Tier) -> TablesProfile {
         max_cols: 4,
         types: vec![ColType::Int, ColType::Int, ColType::Int32, ColType::Double, ColType::Str, ColType::Date, ColType::Bool],
         domains: vec![1, 2, 3, 7, 20, 100, 1000],
-        null_pcts: vec![0, 10, 40],
+        // (85: mostly-NULL columns — per-batch partial states that have seen only NULLs)
+        null_pcts: vec![0, 10, 40, 85],
         sparse: false,
         // the multi-partition gate of MemoryTableExec is 1000 rows: 1 table in 10
         // draws from this range (see `big_rows`), the rest stays small
@@ -67,6 +68,7 @@ fn opts() -> GenOpts {
         // open C01 finding (NULL group dropped by the fused / raw paths): the path
         // taken depends on batching, so keep it a minority
         null_group_keys_pct: 25,
+        mixed_agg_list_pct: 45,
         ..GenOpts::default()
     }
 }
@@ -182,7 +184,9 @@ pub struct BatchCase {
 
 fn cut_sels_strategy() -> impl Strategy<Value = Vec<Vec<u16>>> {
     proptest::collection::vec(
-        (prop_oneof![Just(0usize), Just(1), Just(1), Just(2), Just(3), Just(7)], proptest::collection::vec(any::<u16>(), 7)).prop_map(|(n, v)| v.into_iter().take(n).collect::<Vec<u16>>()),
+        // 0..7 cuts, and layouts of 13 / 41 batches: operators switch to a parallel merge of
+        // per-chunk partial states above a handful of input batches (hash aggregate: > 4)
+        (prop_oneof![Just(0usize), Just(1), Just(1), Just(2), Just(3), Just(7), Just(7), Just(12), Just(40)], proptest::collection::vec(any::<u16>(), 40)).prop_map(|(n, v)| v.into_iter().take(n).collect::<Vec<u16>>()),
         2,
     )
 }
@@ -211,7 +215,7 @@ impl Check for Batching {
         "the one-batch run answered, some layout had >= 2 batches, and some operator of the plan of a compared layout declared > 1 output partition"
     }
     fn cases(&self, tier: Tier) -> u32 {
-        tier.pick(400, 20_000)
+        tier.pick(900, 20_000)
     }
     fn max_shrink_iters(&self) -> u32 {
         400
